@@ -11,7 +11,7 @@ From Coq Require Import Lia.
    on, the route function before or after writing, parameter extraction *)
 Definition C10_no_escape_statement : Prop :=
   forall (O : oracles) (cfg : dcfg) (en : entry) (req : request) (s : rstate),
-    d_recover cfg = true -> panic_free (d_recover_script cfg) = true ->
+    routed_request cfg req -> d_recover cfg = true -> panic_free (d_recover_script cfg) = true ->
     exists s', serve O cfg en req s = Done s'.
 Theorem C10_no_escape : C10_no_escape_statement.
 Proof. exact serve_no_escape. Qed.
@@ -57,7 +57,7 @@ Example C10_example :
                         r_conds := []; r_noct := []; r_enc := None |} ] |} ] |};
                 d_cfilters := [ {| f_id := L "c0"; f_pre := []; f_pass := true; f_post := [APanic (L "late")]; f_fresh := false; f_mw := 0 |} ];
                 d_sfilters := []; d_rfilters := []; d_handlers := [(1%Z, [AWrite (L "partial")])];
-                d_encoding := true; d_recover := true; d_recover_script := [AStatus 500; AWrite (L "<r>")]; d_condpanic := [] |} in
+                d_encoding := true; d_recover := true; d_recover_script := [AStatus 500; AWrite (L "<r>")]; d_condpanic := []; d_plain := [] |} in
   let req := {| rq_method := L "GET"; rq_path := L "/a"; rq_headers := [(H_AcceptEncoding, L "gzip")]; rq_clen := 0 |} in
   let s := state_of (serve O cfg EServeHTTP req (st0 [])) in
   st_recovered s = 1 /\ st_acq s = 1 /\ st_rel s = 1 /\
